@@ -337,6 +337,7 @@ def write_replay(prop, name, payload):
     payload = dict(payload)
     payload.setdefault('property', prop)
     payload.setdefault('pythonhashseed', os.environ.get('PYTHONHASHSEED'))
+    payload.setdefault('python_optimize', int(sys.flags.optimize))
     with open(path, 'w') as f:
         json.dump(payload, f, indent=1, sort_keys=True, default=repr)
         f.write('\n')
@@ -369,6 +370,74 @@ def verify_replay_fresh(check_id, path, expect_class, timeout=300):
     marker = 'REPLAY-RESULT class=%s' % expect_class
     ok = (p.returncode == EXIT_VIOLATION) and (marker in p.stdout)
     return ok, p.stdout[-2000:] + p.stderr[-2000:]
+
+
+###############################################################################
+# Interpreter-configuration slices
+###############################################################################
+
+# The interpreter the library is deployed under is part of the environment a run meets, like the
+# hash seed: `python -O` / PYTHONOPTIMIZE=1 strips every assert statement (and whatever was
+# computed inside one). A slice re-runs the same check, other run indices, under that
+# configuration in a subprocess; its replay files record the configuration and replay under it.
+SLICE_CONFIGS = (
+    {'name': 'python -O (asserts stripped)', 'env': {'HPLSIM_PYOPT': '1'}},
+)
+
+
+def run_config_slices(prop, tier, runs, new, known_hits, harness_errors, offset=20_000_000, timeout=900):
+    """Appends the slices' violations / known findings / harness errors to the caller's lists;
+    returns the list of slice descriptions for the evidence file."""
+    import tempfile
+    import shutil
+    if os.environ.get('HPLSIM_SLICE') or os.environ.get('HPLSIM_NO_SLICES') or runs <= 0:
+        return []
+    infos = []
+    for i, cfg in enumerate(SLICE_CONFIGS):
+        tmp = tempfile.mkdtemp(prefix='hplsim_slice_')
+        try:
+            env = dict(os.environ)
+            env.update(cfg['env'])
+            env['HPLSIM_SLICE'] = '1'
+            env['HPLSIM_EVIDENCE_DIR'] = tmp
+            cmd = [sys.executable, os.path.join(VERIF, 'check.py'), prop, '--tier', tier, '--runs', str(runs),
+                   '--offset', str(offset * (i + 1))]
+            t0 = time.monotonic()
+            try:
+                p = subprocess.run(cmd, env=env, capture_output=True, text=True, timeout=timeout)
+            except subprocess.TimeoutExpired:
+                harness_errors.append('slice "%s" timed out' % cfg['name'])
+                continue
+            lines = p.stdout.splitlines()
+            nviol = 0
+            for j, ln in enumerate(lines):
+                if ln.startswith('VIOLATION property=%s replay=' % prop):
+                    path = ln.split('replay=', 1)[1].strip()
+                    desc = lines[j + 1].strip() if j + 1 < len(lines) and lines[j + 1].startswith('  ') else ''
+                    new.append((path, '[%s] %s' % (cfg['name'], desc)))
+                    nviol += 1
+                elif ln.startswith('KNOWN-FINDING: property=%s ' % prop):
+                    what = ln.split(' ', 2)[2]
+                    if what not in known_hits:
+                        known_hits.append(what)
+                elif ln.startswith('HARNESS-ERROR:'):
+                    harness_errors.append('slice "%s": %s' % (cfg['name'], ln[:600]))
+            if p.returncode not in (EXIT_OK, EXIT_VIOLATION) and not any('slice "%s"' % cfg['name'] in h for h in harness_errors):
+                harness_errors.append('slice "%s" exited %d: %s' % (cfg['name'], p.returncode, (p.stdout + p.stderr)[-600:]))
+            info = {'configuration': cfg['name'], 'runs_requested': runs, 'violations': nviol,
+                    'wall_seconds': round(time.monotonic() - t0, 1), 'exit': p.returncode}
+            try:
+                with open(os.path.join(tmp, prop + '.json')) as f:
+                    ev = json.load(f)
+                cov = ev.get('coverage', {})
+                info['runs'] = cov.get('runs')
+                info['cases'] = cov.get('evaluations')
+            except (OSError, ValueError):
+                pass
+            infos.append(info)
+        finally:
+            shutil.rmtree(tmp, ignore_errors=True)
+    return infos
 
 
 ###############################################################################
